@@ -67,6 +67,12 @@ var commentTextsBq = func() []string {
 
 func (l RandomLayout) Gap(b Boundary) GapText {
 	var g GapText
+	if b.ContOnly {
+		if l.Conts && rapid.IntRange(0, 7).Draw(l.T, "ionum_cont") == 0 {
+			g.Cont = true
+		}
+		return g
+	}
 	commentTexts := commentTexts
 	if b.Stream != nil && b.Stream.Open == "`" {
 		// inside backquotes a backquote ends the substitution, also in a comment
